@@ -473,6 +473,44 @@ package shaping
 //@ opaque scriptOrientation(s language.Script) unicodedata.ScriptVerticalOrientation
 //
 // Segmenter.reset: the three reused buffers are emptied, so Split's result depends on its arguments only (C13 shares this).
+// splitByScript ("all runes with a specific script share the run's script (neutral characters and matched brackets
+// follow their context)"). scriptOf = language.LookupScript (a pure function of the rune, see its contract).
+// Proved for every run appended by the call: every rune of the run whose own script is strong (not Common or
+// Inherited) has the run's script; the runs lie inside their texts. The bracket stack: once the script of the
+// current run is known no pending open bracket is left unresolved (script Common), which is what makes a closing
+// bracket follow the context of its opener.
+//@ spec strongRunesMatch(in Input, lo int, hi int) bool = forall(p, lo, hi, implies(language.LookupScript(in.Text[p]).Strong(), language.LookupScript(in.Text[p]) == in.Script))
+//@ spec stackWF(st []delimEntry) bool = forall(k, 0, len(st), st[k].script != language.Inherited)
+//@ spec stackResolved(st []delimEntry) bool = forall(k, 0, len(st), st[k].script != language.Common)
+//@ func Segmenter.splitByScript C07
+//@   mode int
+//@   requires [inputs-in-text] forall(k, 0, len(seg.input), 0 <= seg.input[k].RunStart && seg.input[k].RunStart <= seg.input[k].RunEnd && seg.input[k].RunEnd <= len(seg.input[k].Text))
+//@   requires [buffers-distinct] rid(seg.input) != rid(seg.output) || len(seg.input) == 0
+//@   requires [stack-wf] stackWF(seg.delimStack)
+//@   ensures [one-or-more-runs-per-input] len(seg.output) >= old(len(seg.output)) + len(seg.input)
+//@   ensures [strong-runes-share-run-script] forall(m, old(len(seg.output)), len(seg.output), strongRunesMatch(seg.output[m], seg.output[m].RunStart, seg.output[m].RunEnd))
+//@   ensures [runs-in-text] forall(m, old(len(seg.output)), len(seg.output), 0 <= seg.output[m].RunStart && seg.output[m].RunStart <= seg.output[m].RunEnd && seg.output[m].RunEnd <= len(seg.output[m].Text))
+//@   modifies unspecified
+//@   loop 1 invariant [input-kept] sameslice(seg.input, old(seg.input)) && (rid(seg.input) != rid(seg.output) || len(seg.input) == 0) && forall(k, 0, len(seg.input), 0 <= seg.input[k].RunStart && seg.input[k].RunStart <= seg.input[k].RunEnd && seg.input[k].RunEnd <= len(seg.input[k].Text))
+//@   loop 1 invariant [grows] len(seg.output) >= old(len(seg.output)) + rangeindex+1
+//@   loop 1 invariant [done] forall(m, old(len(seg.output)), len(seg.output), strongRunesMatch(seg.output[m], seg.output[m].RunStart, seg.output[m].RunEnd) && 0 <= seg.output[m].RunStart && seg.output[m].RunStart <= seg.output[m].RunEnd && seg.output[m].RunEnd <= len(seg.output[m].Text))
+//@   loop 1 invariant [stack-wf] stackWF(seg.delimStack)
+//   the rune loop of one input
+//@   loop 2 invariant [input-kept] sameslice(seg.input, old(seg.input)) && (rid(seg.input) != rid(seg.output) || len(seg.input) == 0) && forall(k, 0, len(seg.input), 0 <= seg.input[k].RunStart && seg.input[k].RunStart <= seg.input[k].RunEnd && seg.input[k].RunEnd <= len(seg.input[k].Text))
+//@   loop 2 invariant [i-range] 0 <= input.RunStart && input.RunStart <= currentInput.RunStart && currentInput.RunStart <= i && i <= input.RunEnd && input.RunEnd <= len(input.Text) && sameslice(currentInput.Text, input.Text)
+//@   loop 2 invariant [non-empty-so-far] currentInput.RunStart < i || i == input.RunStart
+//@   loop 2 invariant [grows] len(seg.output) >= old(len(seg.output)) + rangeindex
+//@   loop 2 invariant [done] forall(m, old(len(seg.output)), len(seg.output), strongRunesMatch(seg.output[m], seg.output[m].RunStart, seg.output[m].RunEnd) && 0 <= seg.output[m].RunStart && seg.output[m].RunStart <= seg.output[m].RunEnd && seg.output[m].RunEnd <= len(seg.output[m].Text))
+//@   loop 2 invariant [current-run] strongRunesMatch(currentInput, currentInput.RunStart, i) && currentInput.Script != language.Inherited
+//@   loop 2 invariant [unresolved-run] implies(currentInput.Script == language.Common, forall(p, currentInput.RunStart, i, !language.LookupScript(currentInput.Text[p]).Strong()))
+//@   loop 2 invariant [stack-wf] stackWF(seg.delimStack)
+//@   loop 2 invariant [stack-resolved] implies(currentInput.Script != language.Common, stackResolved(seg.delimStack))
+//   the search of the opening bracket
+//@   loop 3 invariant [j-range] -1 <= j && j < len(seg.delimStack) && !rScript.Strong()
+//   the resolution of the pending brackets
+//@   loop 4 invariant [resolved-so-far] forall(k, 0, rangeindex+1, seg.delimStack[k].script == rScript) && rScript.Strong()
+//@   loop 4 invariant [stack-wf] stackWF(seg.delimStack)
+//
 //@ func Segmenter.reset C07 C13
 //@   mode int
 //@   ensures [emptied] len(seg.input) == 0 && len(seg.output) == 0 && len(seg.delimStack) == 0
